@@ -123,13 +123,14 @@ class MCMC(Identifiable, Runnable):
 
             operator.tune(acceptance_prob, sample=self._epoch, accepted=accepted)
 
+            # a checkpoint describes the state at the start of the next iteration
+            self._epoch += 1
+
             if (
                 self.checkpoint is not None
-                and self._epoch % self.checkpoint_frequency == 0
+                and (self._epoch - 1) % self.checkpoint_frequency == 0
             ):
                 self.save_full_state()
-
-            self._epoch += 1
 
         for logger in self.loggers:
             logger.close()
